@@ -42,7 +42,7 @@ func main() { vh.Main(map[string]vh.Suite{"C33": {Corr: "Corr.C33Corr", Run: run
 const allocLimit = 12 << 20
 
 // gridDeadline: connection deadline of the mutation-grid runs (many mutations make both sides wait for each other until it expires)
-const gridDeadline = 1200 * time.Millisecond
+const gridDeadline = 900 * time.Millisecond
 
 type driveOpts struct {
 	id        tls.ClientHelloID
@@ -624,7 +624,7 @@ func run(c *vh.Ctx) {
 	parrots := probeParrots(c, pki)
 	c.Extra["parrots"] = len(parrots)
 
-	perParrot := 10
+	perParrot := 8
 	if c.Tier != "quick" {
 		perParrot = 10 + c.N/40
 	}
@@ -684,6 +684,7 @@ func run(c *vh.Ctx) {
 	targeted(c, pki, parrots, &live)
 	bombs(c, pki, parrots, &live)
 	keyShareLengths(c, pki, parrots, &live)
+	degenerateCerts(c, pki, parrots, &live)
 	// (4) raw record streams
 	rawStreams(c, pki, parrots, &live)
 	c.Extra["live_connections"] = live
@@ -1298,6 +1299,186 @@ func keyShareLengths(c *vh.Ctx, pki *hs.PKI, parrots []*parrotInfo, live *int) {
 				judgeKey(c, r, fmt.Sprintf("keyshare-%d-bytes/ServerHello/group-0x%04x/%s", l, g, p.Name), fmt.Sprintf("ServerHello-keyshare/group-0x%04x", g),
 					map[string]any{"parrot": p.Name, "scenario": "server key_share length", "group": g, "share_len": l, "honest_len": sz, "seed": c.Seed})
 			}
+		}
+	}
+}
+
+// ---------------------------------------------------------------- well-formed but degenerate Certificate messages
+
+func u24b(n int) []byte { return []byte{byte(n >> 16), byte(n >> 8), byte(n)} }
+
+// certEntry13: CertificateEntry { opaque cert_data<1..2^24-1>; Extension extensions<0..2^16-1>; }
+func certEntry13(der, exts []byte) []byte {
+	out := append(u24b(len(der)), der...)
+	out = append(out, byte(len(exts)>>8), byte(len(exts)))
+	return append(out, exts...)
+}
+
+// certBody13: Certificate { opaque certificate_request_context<0..255>; CertificateEntry certificate_list<0..2^24-1>; }
+func certBody13(ctx []byte, entries ...[]byte) []byte {
+	var list []byte
+	for _, e := range entries {
+		list = append(list, e...)
+	}
+	out := append([]byte{byte(len(ctx))}, ctx...)
+	out = append(out, u24b(len(list))...)
+	return append(out, list...)
+}
+
+var certChecksN int
+
+type degCert struct {
+	name   string
+	body   []byte
+	ncerts int // entries in certificate_list when the body is well-formed with an empty context, else -1
+}
+
+func degenerate13(leaf []byte, rb func(int) []byte) []degCert {
+	empty := certEntry13(nil, nil)
+	var many [][]byte
+	for i := 0; i < 300; i++ {
+		many = append(many, empty)
+	}
+	short := certBody13(nil, certEntry13(leaf, nil))
+	short[3]-- // certificate_list length one short: a trailing byte after the list
+	return []degCert{
+		{"empty-list", certBody13(nil), 0},
+		{"one-empty-entry", certBody13(nil, empty), 1},
+		{"context-nonempty-empty-list", certBody13([]byte{1}), -1},
+		{"context-nonempty-valid-leaf", certBody13([]byte{7, 7}, certEntry13(leaf, nil)), -1},
+		{"extensions-only-entry", certBody13(nil, certEntry13(nil, append([]byte{0, 5, 0, 5, 1, 0, 0, 1}, 0x30))), 1},
+		{"valid-then-empty-entry", certBody13(nil, certEntry13(leaf, nil), empty), 2},
+		{"empty-then-valid-entry", certBody13(nil, empty, certEntry13(leaf, nil)), 2},
+		{"300-empty-entries", certBody13(nil, many...), 300},
+		{"garbage-der", certBody13(nil, certEntry13(rb(40), nil)), 1},
+		{"list-length-short", short, -1},
+		{"no-body", []byte{}, -1},
+		{"context-only", []byte{0}, -1},
+	}
+}
+
+// degenerateCerts: Certificate messages that are well-formed at the message / compression layer but degenerate inside, sent
+// (a) compressed with every algorithm the client advertises (stream well-formed, declared length exact), (b) uncompressed in
+// place of the honest TLS 1.3 Certificate, (c) as TLS 1.2 Certificate messages.
+func degenerateCerts(c *vh.Ctx, pki *hs.PKI, parrots []*parrotInfo, live *int) {
+	rb := func(n int) []byte {
+		b := make([]byte, n)
+		c.Rng.Read(b)
+		return b
+	}
+	leaf := pki.ECDSA.Certificate[0]
+	vars := degenerate13(leaf, rb)
+	names := map[uint16]string{1: "zlib", 2: "brotli", 3: "zstd"}
+	// compressed payloads ahead of time (outside every measured window)
+	comp := map[string]map[uint16][]byte{}
+	for _, v := range vars {
+		comp[v.name] = map[uint16][]byte{}
+		for _, a := range []uint16{1, 2, 3} {
+			if z, err := tls.VerifCompress(a, v.body); err == nil {
+				comp[v.name][a] = z
+			}
+		}
+	}
+	report := func(r *driveResult, v degCert, compressed bool, mutation, message string, input map[string]any) {
+		judge(c, r, mutation, message, input)
+		if r.buildErr != nil || r.panicked || r.hung || v.ncerts < 0 {
+			return
+		}
+		emptyErr := r.hsErr != nil && strings.Contains(r.hsErr.Error(), "received empty certificates message")
+		certChecksN++
+		if c.Tier == "quick" && v.ncerts != 0 && certChecksN%4 != 0 {
+			return // the Go-side oracle saw the run; every 4th of the non-empty lists also goes to Coq
+		}
+		c.Case("cert-checks", fmt.Sprintf("(CCertChecks %s %d %s %s)", vh.Bool(compressed), v.ncerts, vh.Bool(emptyErr), vh.Bool(r.hsErr == nil)),
+			fmt.Sprint(mutation, message, input["parrot"]), true, nil)
+	}
+	k := 0
+	for _, p := range parrots {
+		if !p.usable13 {
+			continue
+		}
+		// (a) compressed
+		for ai, alg := range p.ccAlgs {
+			if names[alg] == "" || (c.Tier == "quick" && ai > 0 && len(p.ccAlgs) <= 1) {
+				continue
+			}
+			for vi, v := range vars {
+				if c.Tier == "quick" && vi >= 2 && (vi+k)%4 != 0 {
+					continue // quick tier: the two emptiest lists for every client and algorithm, a rotating quarter of the rest
+				}
+				z, ok := comp[v.name][alg]
+				if !ok || len(z) == 0 {
+					// no stream to send (klauspost's zstd writer emits nothing for empty input); with a nil payload the in-process
+					// server would run the encoder itself, inside the measured window
+					c.Count("degenerate-skipped/no-compressed-stream/" + names[alg])
+					continue
+				}
+				n := uint32(len(v.body))
+				s := &tls.VerifServerScript{CertCompression: alg, CompressedCert: z, CompressedCertULen: &n}
+				r := drive(driveOpts{id: p.ID, spec: specOf(p), ccfg: clientCfg(pki, p), scfg: pki.ServerConfig("h2"), script: s, deadline: gridDeadline})
+				*live++
+				report(r, v, true, "cert-"+v.name, "CompressedCertificate-"+names[alg], map[string]any{"parrot": p.Name, "scenario": "well-formed compressed certificate, degenerate content",
+					"algorithm": alg, "declared_uncompressed_length": n, "certificate_message_body": vh.Hex(v.body), "compressed_payload": vh.Hex(z)})
+			}
+		}
+		// (b) uncompressed, (c) TLS 1.2: three variants per client in the quick tier, rotating; all in thorough
+		for vi, v := range vars {
+			if c.Tier == "quick" && (vi+k)%6 != 0 {
+				continue
+			}
+			msg := append(append([]byte{11}, u24b(len(v.body))...), v.body...)
+			r := drive(driveOpts{id: p.ID, spec: specOf(p), ccfg: clientCfg(pki, p), scfg: pki.ServerConfig("h2"), deadline: gridDeadline,
+				scriptFn: func() *tls.VerifServerScript {
+					done := false
+					return &tls.VerifServerScript{MutateHandshakeMsg: func(typ uint8, b []byte) []byte {
+						if typ == 11 && !done {
+							done = true
+							return msg
+						}
+						return b
+					}}
+				}})
+			*live++
+			report(r, v, false, "cert-"+v.name, "Certificate", map[string]any{"parrot": p.Name, "scenario": "degenerate Certificate message", "sent_instead": vh.Hex(msg)})
+		}
+		k++
+	}
+	// (c) TLS 1.2: certificate_list<0..2^24-1> of opaque ASN.1Cert<1..2^24-1>
+	body12 := func(ders ...[]byte) []byte {
+		var list []byte
+		for _, d := range ders {
+			list = append(list, append(u24b(len(d)), d...)...)
+		}
+		return append(u24b(len(list)), list...)
+	}
+	vars12 := []degCert{
+		{"empty-list", body12(), 0}, {"one-empty-entry", body12(nil), 1}, {"valid-then-empty-entry", body12(leaf, nil), 2},
+		{"garbage-der", body12(rb(40)), 1}, {"no-body", []byte{}, -1},
+	}
+	for pi, p := range parrots {
+		if !p.usable12 {
+			continue
+		}
+		for vi, v := range vars12 {
+			if c.Tier == "quick" && (vi+pi)%5 != 0 {
+				continue
+			}
+			msg := append(append([]byte{11}, u24b(len(v.body))...), v.body...)
+			scfg := pki.ServerConfig("h2")
+			scfg.MaxVersion = tls.VersionTLS12
+			r := drive(driveOpts{id: p.ID, spec: specOf(p), ccfg: clientCfg(pki, p), scfg: scfg, deadline: gridDeadline,
+				scriptFn: func() *tls.VerifServerScript {
+					done := false
+					return &tls.VerifServerScript{MutateHandshakeMsg: func(typ uint8, b []byte) []byte {
+						if typ == 11 && !done {
+							done = true
+							return msg
+						}
+						return b
+					}}
+				}})
+			*live++
+			judge(c, r, "cert-"+v.name, "Certificate12", map[string]any{"parrot": p.Name, "scenario": "degenerate TLS 1.2 Certificate message", "sent_instead": vh.Hex(msg)})
 		}
 	}
 }
